@@ -1533,6 +1533,7 @@ func (h *fsmHandler) opensent(ctx context.Context) (bgp.FSMState, *fsmStateReaso
 	holdTimer := time.NewTimer(time.Second * time.Duration(fsm.opensentHoldTime))
 
 	for {
+		verifYield("opensent", fsm)
 		select {
 		case <-ctx.Done():
 			select {
@@ -2057,6 +2058,7 @@ func (h *fsmHandler) established(ctx context.Context) (bgp.FSMState, *fsmStateRe
 
 	go h.sendMessageloop(ioCtx, fsm.conn, reasonCh, wg)
 	go h.recvMessageloop(ioCtx, fsm.conn, holdtimerResetCh, reasonCh, wg)
+	verifYield("established", fsm)
 
 	defer func() {
 		// for to stop the recv goroutine
